@@ -623,15 +623,37 @@ def _mid_record(n, seed, kind="burst"):
     return x * 10.0 ** (seed % 5 - 2)
 
 
-def _mid_tone(n, seed, dc):
-    """A record for the dominant period: zero-mean burst + a tone on a high bin of the default grid (or DC-dominated when dc)."""
+def _tone_bin(pts, seed, mode):
+    """A bin 1..pts-1 of a one-sided spectrum of pts bins: among the last few per cent ('top'), at or next to a multiple of 2^k
+    ('seam'), log-uniform ('log') or in the upper half ('high')."""
+    if pts <= 4:
+        return max(1, pts - 1)
+    if mode == "top":
+        k = pts - 1 - _hh(seed, "top") % max(1, pts // 40)
+    elif mode == "seam":
+        e = 5 + _hh(seed, "e") % max(1, int(math.log2(pts)) - 5)
+        m = 1 + _hh(seed, "m") % max(1, pts // 2 ** e - 1)
+        k = m * 2 ** e + _hh(seed, "d") % 3 - 1
+    elif mode == "high":
+        k = pts // 2 + _hh(seed, "hi") % (pts - pts // 2)
+    else:
+        k = _hint(2, pts - 1, seed, "k0")
+    return min(pts - 1, max(1, k))
+
+
+_TONE_MODES = ["top", "seam", "log", "high"]
+
+
+def _mid_tone(n, seed, dc, N=None, mode=None):
+    """A record for the dominant period: zero-mean burst + a tone on a bin of the grid of N points (default: the default padding),
+    placed by `mode` (hashed when None); DC-dominated when dc."""
     x = _mid_record(n, seed)
     if dc:
         return x + 3.0 * float(np.max(np.abs(x)))
     x = x - np.mean(x)
-    N = next_pow2(n)
-    k0 = _hint(max(2, N // 64), N // 2 - 1, seed, "k0")
-    amp = [0.05, 1.0, 20.0][seed % 3] * float(np.std(x))
+    N = next_pow2(n) if N is None else N
+    k0 = _tone_bin(N // 2, seed, mode or _TONE_MODES[(seed // 3) % 4])
+    amp = [0.3, 2.0, 20.0][seed % 3] * float(np.std(x))
     return x + amp * np.cos(2 * math.pi * k0 * np.arange(n) / N + 0.1 * (seed % 60))
 
 
@@ -708,7 +730,7 @@ def mid_range(case, ctx):
     _check_spectrum(ctx, "the object's spectrum after it was passed to the inverse helper", ctx.lib(lambda: sig.fa_spectrum), ctx.lib(lambda: sig.fa_freqs), rec, dt, N0)
     # 3. p2_plus, object and array level: every value 1..3 whose transform stays below the tier's cap (a window may be defined on
     #    npts x 2^p2_plus)
-    cap = 2 ** 21 if core.tier() == "quick" else 2 ** 23
+    cap = 2 ** 21 if core.tier() == "quick" else 2 ** 22
     p2s = [q for q in (1, 2, 3) if N0 * 2 ** q <= cap] or [1]
     p2 = p2s[(seed // 5) % len(p2s)]
     for q in p2s:
@@ -799,7 +821,7 @@ def mid_range_n(case, ctx):
     n = _hint(2, N, seed, "npts") if seed % 4 else N - seed % 3
     n = max(2, min(N, n))
     ctx.nt(True)
-    rec = Rec(None, _mid_tone(n, seed, dc=seed % 5 == 0) if n >= 64 else _mid_record(n, seed))
+    rec = Rec(None, _mid_tone(n, seed, dc=seed % 5 == 0, N=N) if n >= 64 else _mid_record(n, seed))
     cls = eqsig.AccSignal if seed % 2 else eqsig.Signal
     form = core.call_form(case)
     ctx.cls(gen.size_class(n), cls.__name__, "N-odd" if N % 2 else "N-even", "N>=8npts" if N >= 8 * n else None)
@@ -811,6 +833,13 @@ def mid_range_n(case, ctx):
     _check_spectrum(ctx, "gen_fa_spectrum(n=%d)" % N, s, f, rec, dt, N, bins=_seam_bins(N // 2, seed), parseval=True)
     _agree(ctx, "calc_fa_spectrum(n=%d) vs object (npts=%d)" % (N, n), ctx.libf(form, fr.calc_fa_spectrum, ["n"], sig, n=N), s, f, rec, dt, N)
     _check_dominant(ctx, "max_fa_period (npts=%d, after gen_fa_spectrum(n=%d))" % (n, N), sig, rec, dt, [N, next_pow2(n)])
+    if n >= 64:
+        # the dominant period with the tone among the last bins, at a block seam, anywhere: three more records of this length
+        for j, mode in enumerate(("top", "seam", "log")):
+            rj = Rec(None, _mid_tone(n, seed + 1 + j, False, N=N, mode=mode))
+            sj = ctx.lib(cls, rj.x, dt)
+            ctx.lib(sj.gen_fa_spectrum, n=N)
+            _check_dominant(ctx, "max_fa_period (npts=%d, after gen_fa_spectrum(n=%d), tone placed '%s')" % (n, N, mode), sj, rj, dt, [N])
     Ne = N + N % 2
     Fe = s if Ne == N else np.array(ctx.lib(fr.calc_fa_spectrum, sig, n=Ne)[0])
     _check_inverse(ctx, "spectrum of N=%d points (npts=%d)" % (Ne, n), Fe, rec, dt, Ne, ["signal", "acc", "default"][seed % 3], form)
